@@ -3,8 +3,19 @@ package interp
 // Symbolic net/url.Parse. Two encodings (DESIGN.md, C11):
 //  (i) abstract: every field is an uninterpreted function of the raw string;
 // (ii) structured: the harness declares the decomposition of a raw string it
-//      built from delimiter-free components (zz.DeclareURL); natively the
-//      declaration is checked against the real parser on every replay.
+//      built from delimiter-free components (zz.DeclareURL / zz.DeclareURLHost);
+//      natively the declaration is checked against the real parser on every replay.
+//
+// Structured URLs are exact for the following component alphabets (probed against
+// net/url of go1.23, see HARNESS_GUIDE / C11 harness):
+//   scheme   [a-zA-Z][a-zA-Z0-9+.-]*  (or empty for relative references)
+//   hostname printable ASCII minus  space # % / : ? @ [ \ ] ^ ` { | }   or a bracketed IPv6 literal constant
+//   port     digits
+//   path     "" or "/"... over printable ASCII minus  space " # % < > ? \ ^ ` { | }
+//   rawquery printable ASCII minus  #   (non-empty when a "?" is present: no ForceQuery)
+//   fragment printable ASCII minus  space " # % < > \ ^ ` { | }
+// For these, Parse(raw) yields the components (scheme lower-cased), String() is the
+// concatenation below, and Parse(String(u)) == u.
 
 import (
 	"go/types"
@@ -14,25 +25,56 @@ import (
 )
 
 type urlDecl struct {
-	scheme, hostname, port, path, rawquery, fragment *Term
+	scheme, host, hostname, path, rawquery, fragment *Term
+	synth bool // produced by (*URL).String() of a structured URL (scheme already lower-case)
 }
 
-func (d *urlDecl) host() *Term {
-	if d.port.IsConst() && d.port.S == "" {
-		return d.hostname
+func (m *Machine) declareURL(raw *Term, d *urlDecl) {
+	if m.urls == nil {
+		m.urls = map[string]*urlDecl{}
 	}
-	return mkConcat(d.hostname, mkStr(":"), d.port)
+	m.urls[raw.String()] = d
+	m.hostnameOf(d.host, d.hostname)
+}
+
+// hostnameOf records/looks up the Hostname() of a structured Host term.
+func (m *Machine) hostnameOf(host, set *Term) *Term {
+	key := "url:hostname:" + host.String()
+	if set != nil {
+		m.ghost[key] = []value{set}
+		return set
+	}
+	if v := m.ghost[key]; len(v) == 1 {
+		return v[0].(*Term)
+	}
+	return nil
+}
+
+func stripBrackets(h *Term) *Term {
+	if h.IsConst() && strings.HasPrefix(h.S, "[") && strings.HasSuffix(h.S, "]") {
+		return mkStr(h.S[1 : len(h.S)-1])
+	}
+	return h
 }
 
 func init() {
-	// DeclareURL(raw, scheme, hostname, port, path, rawquery, fragment)
+	// DeclareURL(raw, scheme, hostname, port, path, rawquery, fragment): port "" (constant) means "no colon".
 	zzAPI["DeclareURL"] = func(fr *frame, a []value) value {
 		m := fr.i.m
-		if m.urls == nil {
-			m.urls = map[string]*urlDecl{}
+		hostname, port := strArg(a[2]), strArg(a[3])
+		host := hostname
+		if !(port.IsConst() && port.S == "") {
+			host = mkConcat(hostname, mkStr(":"), port)
 		}
-		raw := strArg(a[0])
-		m.urls[raw.String()] = &urlDecl{strArg(a[1]), strArg(a[2]), strArg(a[3]), strArg(a[4]), strArg(a[5]), strArg(a[6])}
+		m.declareURL(strArg(a[0]), &urlDecl{scheme: strArg(a[1]), host: host, hostname: stripBrackets(hostname), path: strArg(a[4]), rawquery: strArg(a[5]), fragment: strArg(a[6])})
+		m.note("structured URLs: the parse of a string built from declared delimiter-free components is its components (checked against net/url on every native replay)")
+		return nil
+	}
+	// DeclareURLHost(raw, scheme, host, hostname, path, rawquery, fragment): host is the complete authority
+	// (hostname plus optional ":port"), hostname what (*URL).Hostname() returns.
+	zzAPI["DeclareURLHost"] = func(fr *frame, a []value) value {
+		m := fr.i.m
+		m.declareURL(strArg(a[0]), &urlDecl{scheme: strArg(a[1]), host: strArg(a[2]), hostname: strArg(a[3]), path: strArg(a[4]), rawquery: strArg(a[5]), fragment: strArg(a[6])})
 		m.note("structured URLs: the parse of a string built from declared delimiter-free components is its components (checked against net/url on every native replay)")
 		return nil
 	}
@@ -79,28 +121,59 @@ func (i *interpreter) urlParse(fr *frame, rawv value, requestURI bool) value {
 		return tuple{i.newURLStruct(u), iface{}}
 	case *Term:
 		m := i.m
-		if d, ok := m.urls[raw.String()]; ok {
-			p := i.urlStructFromTerms(raw, symLowerTerm(fr, d.scheme), d.host(), d.path, d.rawquery, d.fragment)
+		if d, ok := m.urls[raw.String()]; ok && !requestURI {
+			sc := d.scheme
+			if !d.synth {
+				sc = m.lowerTerm(fr, sc)
+			}
+			p := i.urlStructFromTerms(raw, sc, d.host, d.path, d.rawquery, d.fragment)
 			m.urlOrigin[p].decl = d
 			return tuple{p, iface{}}
 		}
 		// abstract encoding
+		// the empty string always parses
+		m.assume(mkImplies(mkEq(raw, mkStr("")), mkNot(mkUF("u_url_err", SBool, raw))))
 		if m.decide(mkUF("u_url_err", SBool, raw)) {
 			return tuple{zero(ptrT), mkSymErr("url.Error", "parse error")}
 		}
 		sc := mkUF("u_url_scheme", SStr, raw)
 		// Parse lower-cases the scheme
 		m.assume(mkEq(toTerm(symLower(fr, sc)), sc))
-		p := i.urlStructFromTerms(raw, sc, mkUF("u_url_host", SStr, raw), mkUF("u_url_path", SStr, raw),
-			mkUF("u_url_rawquery", SStr, raw), mkUF("u_url_fragment", SStr, raw))
+		fs := []*Term{sc, mkUF("u_url_host", SStr, raw), mkUF("u_url_path", SStr, raw), mkUF("u_url_rawquery", SStr, raw), mkUF("u_url_fragment", SStr, raw)}
 		// the empty string parses to the empty URL
-		m.note("abstract URLs: url.Parse fields are uninterpreted functions of the raw string (scheme lower-case)")
+		var allEmpty []*Term
+		for _, f := range fs {
+			allEmpty = append(allEmpty, mkEq(f, mkStr("")))
+		}
+		m.assume(mkImplies(mkEq(raw, mkStr("")), mkAnd(allEmpty...)))
+		p := i.urlStructFromTerms(raw, fs[0], fs[1], fs[2], fs[3], fs[4])
+		m.note("abstract URLs: url.Parse fields are uninterpreted functions of the raw string (scheme lower-case; userinfo/opaque not represented)")
 		return tuple{p, iface{}}
 	}
 	panic("urlParse")
 }
 
 func symLowerTerm(fr *frame, t *Term) *Term { return toTerm(symLower(fr, t)) }
+
+// lowerTerm is strings.ToLower with a syntactic short cut for input variables whose
+// alphabet has no upper-case letters.
+func (m *Machine) lowerTerm(fr *frame, t *Term) *Term {
+	if t.Op == "var" {
+		if ex, ok := m.noChars[t.S]; ok {
+			all := true
+			for c := byte('A'); c <= 'Z'; c++ {
+				if strings.IndexByte(ex, c) < 0 {
+					all = false
+					break
+				}
+			}
+			if all {
+				return t
+			}
+		}
+	}
+	return symLowerTerm(fr, t)
+}
 
 func (i *interpreter) urlFields(p *value) (f [5]*Term) {
 	t := i.namedType("net/url", "URL")
@@ -111,41 +184,107 @@ func (i *interpreter) urlFields(p *value) (f [5]*Term) {
 	return
 }
 
+// emptiness of a string term when it is syntactically evident: +1 non-empty, -1 empty, 0 unknown.
+func strEmptiness(t *Term) int {
+	if t.IsConst() {
+		if t.S == "" {
+			return -1
+		}
+		return 1
+	}
+	if t.Op == "str.++" {
+		for _, p := range t.Args {
+			if strEmptiness(p) == 1 {
+				return 1
+			}
+		}
+	}
+	return 0
+}
+
+func nonEmptyT(t *Term) *Term {
+	switch strEmptiness(t) {
+	case 1:
+		return tTrue
+	case -1:
+		return tFalse
+	}
+	return mkNot(mkEq(t, mkStr("")))
+}
+
+func optPart(prefix string, t *Term) *Term {
+	switch strEmptiness(t) {
+	case 1:
+		return mkConcat(mkStr(prefix), t)
+	case -1:
+		return mkStr("")
+	}
+	return mkIte(mkEq(t, mkStr("")), mkStr(""), mkConcat(mkStr(prefix), t))
+}
+
+// structuredString is (*URL).String() for a URL whose components are over the safe alphabets
+// (no user info, no opaque part, path empty or starting with "/"):
+//   [scheme ":"] ["//" if (scheme≠"" ∨ host≠"") ∧ (host≠"" ∨ path≠"")] host path ["?" rawquery] ["#" fragment]
+func structuredString(f [5]*Term) *Term {
+	slashes := mkIte(mkAnd(mkOr(nonEmptyT(f[0]), nonEmptyT(f[1])), mkOr(nonEmptyT(f[1]), nonEmptyT(f[2]))), mkStr("//"), mkStr(""))
+	var sch *Term
+	switch strEmptiness(f[0]) {
+	case 1:
+		sch = mkConcat(f[0], mkStr(":"))
+	case -1:
+		sch = mkStr("")
+	default:
+		sch = mkIte(mkEq(f[0], mkStr("")), mkStr(""), mkConcat(f[0], mkStr(":")))
+	}
+	return mkConcat(sch, slashes, f[1], f[2], optPart("?", f[3]), optPart("#", f[4]))
+}
+
 func (i *interpreter) urlString(fr *frame, p *value) value {
 	if u, ok := i.nativeURL(p); ok {
 		return u.String()
 	}
+	m := i.m
 	f := i.urlFields(p)
-	org := i.m.urlOrigin[p]
-	if org != nil {
-		same := true
+	org := m.urlOrigin[p]
+	structured := false
+	if org != nil && org.decl != nil {
+		// fields still the declared ones, or replaced by safe material (writers assign RawQuery/Fragment)
+		structured = true
 		for k := range f {
-			if f[k].String() != org.fields[k] {
-				same = false
+			if f[k].String() != org.fields[k] && !allSafe(m, []*Term{f[k]}) {
+				structured = false
 			}
 		}
-		if same {
-			return strVal(org.raw)
+		if k := 2; f[k].String() != org.fields[k] {
+			structured = false // a re-assigned Path is not known to start with "/"
+		}
+	} else if allSafe(m, f[:]) {
+		structured = true
+		if e := strEmptiness(f[2]); !(e == -1 || f[2].IsConst() && strings.HasPrefix(f[2].S, "/") || f[2].Op == "str.++" && f[2].Args[0].IsConst() && strings.HasPrefix(f[2].Args[0].S, "/")) {
+			structured = false
 		}
 	}
-	if org != nil && org.decl != nil || allSafe(i.m, f[:]) {
-		// structured: components are over delimiter-free alphabets, so String() is plain concatenation
-		parts := []*Term{f[0], mkStr("://"), f[1], f[2]}
-		if !(f[3].IsConst() && f[3].S == "") {
-			parts = append(parts, mkStr("?"), f[3])
+	if structured {
+		s := structuredString(f)
+		if !s.IsConst() {
+			hn := m.hostnameOf(f[1], nil)
+			if hn == nil && f[1].IsConst() {
+				hn = mkStr((&url.URL{Host: f[1].S}).Hostname())
+			}
+			if hn != nil {
+				// Parse(String(u)) == u for structured URLs
+				if m.urls == nil {
+					m.urls = map[string]*urlDecl{}
+				}
+				m.urls[s.String()] = &urlDecl{scheme: f[0], host: f[1], hostname: hn, path: f[2], rawquery: f[3], fragment: f[4], synth: true}
+			}
 		}
-		if !(f[4].IsConst() && f[4].S == "") {
-			parts = append(parts, mkStr("#"), f[4])
-		}
-		if !f[3].IsConst() || !f[4].IsConst() {
-			// optional parts with symbolic emptiness
-			q := mkIte(mkEq(f[3], mkStr("")), mkStr(""), mkConcat(mkStr("?"), f[3]))
-			fg := mkIte(mkEq(f[4], mkStr("")), mkStr(""), mkConcat(mkStr("#"), f[4]))
-			return strVal(mkConcat(f[0], mkStr("://"), f[1], f[2], q, fg))
-		}
-		return strVal(mkConcat(parts...))
+		return strVal(s)
 	}
-	return mkUF("u_url_string", SStr, f[0], f[1], f[2], f[3], f[4])
+	s := mkUF("u_url_string", SStr, f[0], f[1], f[2], f[3], f[4])
+	// remember the scheme: IsRequestURL(String(u)) implies u.Scheme != ""
+	m.ghost["url:absstr:"+s.String()] = []value{f[0]}
+	return s
 }
 
 func allSafe(m *Machine, fs []*Term) bool {
@@ -172,20 +311,14 @@ func (i *interpreter) urlHostname(fr *frame, p *value) value {
 	if u, ok := i.nativeURL(p); ok {
 		return u.Hostname()
 	}
-	org := i.m.urlOrigin[p]
 	f := i.urlFields(p)
-	if org != nil && org.decl != nil && f[1].String() == org.fields[1] {
-		h := org.decl.hostname
-		if h.IsConst() && strings.HasPrefix(h.S, "[") && strings.HasSuffix(h.S, "]") {
-			return h.S[1 : len(h.S)-1]
-		}
-		return strVal(h)
-	}
 	if f[1].IsConst() {
 		return (&url.URL{Host: f[1].S}).Hostname()
 	}
-	hn := mkUF("u_hostname", SStr, f[1])
-	return hn
+	if hn := i.m.hostnameOf(f[1], nil); hn != nil {
+		return strVal(hn)
+	}
+	return mkUF("u_hostname", SStr, f[1])
 }
 
 // symIsLoopbackIP: net.ParseIP(s).IsLoopback() for a symbolic s.
@@ -197,6 +330,9 @@ func symIsLoopbackIP(fr *frame, s *Term) value {
 	}
 	oct := `(re.union (re.range "0" "9") (re.++ (re.range "1" "9") (re.range "0" "9")) (re.++ (str.to_re "1") (re.range "0" "9") (re.range "0" "9")) (re.++ (str.to_re "2") (re.range "0" "4") (re.range "0" "9")) (re.++ (str.to_re "25") (re.range "0" "5")))`
 	v4loop := mkInRe(s, `(re.++ (str.to_re "127.") `+oct+` (str.to_re ".") `+oct+` (str.to_re ".") `+oct+`)`)
+	if fr.i.m.sepFree(s, ":") {
+		return boolVal(v4loop)
+	}
 	v6 := mkEq(s, mkStr("::1"))
 	hasColon := mkContains(s, mkStr(":"))
 	other := mkAnd(hasColon, mkNot(v6), mkUF("u_ip6_loopback", SBool, s))
@@ -206,22 +342,144 @@ func symIsLoopbackIP(fr *frame, s *Term) value {
 // symIsRequestURL models govalidator.IsRequestURL = ParseRequestURI succeeds && scheme != "".
 func (i *interpreter) symIsRequestURL(fr *frame, s *Term) value {
 	m := i.m
-	if d, ok := m.urls[s.String()]; ok {
-		return boolVal(mkNot(mkEq(d.scheme, mkStr(""))))
+	if d, ok := m.urls[s.String()]; ok && d.synth {
+		// String() of a structured URL: ParseRequestURI does not split off the fragment, so the only
+		// failure is a "#" ending up in the authority ("scheme://host#frag").
+		bad := mkAnd(nonEmptyT(d.host), mkNot(nonEmptyT(d.path)), mkNot(nonEmptyT(d.rawquery)), nonEmptyT(d.fragment))
+		return boolVal(mkAnd(nonEmptyT(d.scheme), mkNot(bad)))
 	}
-	// a string rebuilt by urlString from safe components: scheme non-empty
-	parts := concatParts(s)
-	if len(parts) >= 2 && parts[1].IsConst() && strings.HasPrefix(parts[1].S, "://") {
-		return boolVal(mkNot(mkEq(parts[0], mkStr(""))))
+	r := mkUF("u_is_request_url", SBool, s)
+	if sc := m.ghost["url:absstr:"+s.String()]; len(sc) == 1 {
+		// String() never invents a scheme (a first path segment with a colon is protected by "./")
+		m.assume(mkImplies(r, mkNot(mkEq(sc[0].(*Term), mkStr("")))))
 	}
-	return boolVal(mkUF("u_is_request_url", SBool, s))
+	return boolVal(r)
 }
 
-// symParseQuery: the query of a symbolic URL, as an opaque map with a single symbolic lookup function.
+// sepFree reports whether t is structurally known not to contain the one-byte separator sep.
+func (m *Machine) sepFree(t *Term, sep string) bool {
+	switch {
+	case t.IsConst():
+		return !strings.Contains(t.S, sep)
+	case t.Op == "var":
+		return m.separatorFree(t, sep)
+	case t.Op == "str.++":
+		for _, p := range t.Args {
+			if !m.sepFree(p, sep) {
+				return false
+			}
+		}
+		return true
+	case t.Op == "ite":
+		return m.sepFree(t.Args[1], sep) && m.sepFree(t.Args[2], sep)
+	case t.Op == "uf" && t.S == "u_qescape":
+		return strings.Contains("&=#?; +", sep)
+	case t.Op == "uf" && t.S == "u_lower" && len(t.Args) == 1:
+		return strings.ToLower(sep) == sep && strings.ToUpper(sep) == sep && m.sepFree(t.Args[0], sep)
+	}
+	return false
+}
+
+// queryPlain: the query-unescaping of t, when t is structurally free of escapes ('%', '+') and of ';'.
+func (m *Machine) queryPlain(t *Term) (*Term, bool) {
+	var out []*Term
+	for _, p := range concatParts(t) {
+		switch {
+		case p.IsConst():
+			if strings.ContainsAny(p.S, "%+;") {
+				return nil, false
+			}
+			out = append(out, p)
+		case p.Op == "uf" && p.S == "u_qescape" && len(p.Args) == 1:
+			out = append(out, p.Args[0]) // QueryUnescape(QueryEscape(x)) == x
+		case p.Op == "var" && m.sepFree(p, "%") && m.sepFree(p, "+") && m.sepFree(p, ";"):
+			out = append(out, p)
+		default:
+			return nil, false
+		}
+	}
+	return mkConcat(out...), true
+}
+
+// symParseQuery: url.ParseQuery of a symbolic raw query that is a structural "&"-list of
+// key "=" value pairs with constant keys and escape-free values.
 func (i *interpreter) symParseQuery(fr *frame, q *Term) value {
 	if q.IsConst() {
 		vs, _ := url.ParseQuery(q.S)
 		return valuesFromNative(vs)
 	}
-	panic(unmodelled{"URL.Query on a symbolic raw query"})
+	m := i.m
+	out := &omap{keyType: types.Typ[types.String]}
+	pairs, ok := m.structuralSplitLoose(q, "&")
+	if !ok {
+		panic(unmodelled{"URL.Query on an unstructured symbolic raw query"})
+	}
+	for _, pair := range pairs {
+		if strEmptiness(pair) == -1 {
+			continue
+		}
+		kv, ok := m.structuralSplitLoose(pair, "=")
+		if !ok || !kv[0].IsConst() {
+			panic(unmodelled{"URL.Query: symbolic key or unstructured pair"})
+		}
+		val := mkStr("")
+		if len(kv) > 1 {
+			var rest []*Term
+			for k, x := range kv[1:] {
+				if k > 0 {
+					rest = append(rest, mkStr("="))
+				}
+				rest = append(rest, x)
+			}
+			val = mkConcat(rest...)
+		}
+		if strings.Contains(kv[0].S, ";") {
+			continue // go >= 1.17: pairs with a semicolon are rejected (Query() drops them)
+		}
+		key, err := url.QueryUnescape(kv[0].S)
+		if err != nil {
+			continue
+		}
+		pv, ok := m.queryPlain(val)
+		if !ok {
+			panic(unmodelled{"URL.Query: value with possible escapes"})
+		}
+		cur, _ := out.lookup(fr, key)
+		var xs []value
+		if cur != nil {
+			xs = cur.([]value)
+		}
+		out.insert(fr, key, append(xs[:len(xs):len(xs)], strVal(pv)))
+	}
+	return out
+}
+
+// structuralSplitLoose is structuralSplit with sepFree (handles ite/concat/escape terms).
+func (m *Machine) structuralSplitLoose(s *Term, sep string) ([]*Term, bool) {
+	parts := concatParts(s)
+	if len(parts) == 0 {
+		return []*Term{mkStr("")}, true
+	}
+	var out, cur []*Term
+	for _, p := range parts {
+		if p.IsConst() {
+			segs := strings.Split(p.S, sep)
+			for k, sg := range segs {
+				if k > 0 {
+					out = append(out, mkConcat(cur...))
+					cur = nil
+				}
+				if sg != "" {
+					cur = append(cur, mkStr(sg))
+				}
+			}
+			continue
+		}
+		if !m.sepFree(p, sep) {
+			return nil, false
+		}
+		cur = append(cur, p)
+	}
+	out = append(out, mkConcat(cur...))
+	return out, true
 }
